@@ -57,6 +57,8 @@ Checks(e) ==
          \cup Flag(e.live_changed = 0, "C20_drop_changed_another_live_object")
          \cup Flag(e.released_while_held = 0, "C20_block_released_while_another_live_object_holds_it")
          \cup Flag(e.leaked_blocks = 0, "C20_secret_left_in_a_block_released_during_construct_clone_or_drop")
+    \* the process running this scenario was killed by the code under test (abort, panic across the C boundary)
+    [] e.ev = "crash" -> {<<l, e.prop \o "_process_killed_in_the_code_under_test">>}
     [] OTHER -> {<<l, "TOOL_unknown_event">>}
 
 Step == /\ l <= N /\ viol' = viol \cup Checks(Rec[l]) /\ l' = l + 1
